@@ -52,6 +52,8 @@ def logical_ops():
     ops["spline"] = shape(lambda p, d: c10.spline_case(p, [(3, 3, 1), (6, 0, 1), (3, -3, 0)]))
     ops["spline-closed"] = shape(lambda p, d: c10.spline_case(p, [(4, 0), (4, 4), (0, 0)]))
     ops["polyline"] = shape(lambda p, d: c10.polyline_case(p, [(2, 0), (2, 3, 1), (0, 0)]))
+    # a waypoint exactly at the machine origin (and one repeated waypoint)
+    ops["polyline-origin"] = shape(lambda p, d: c10.polyline_case(p, [(1.0, 2.0, 0.5), (-p[0], -p[1], -p[2]), (2.0 - p[0], 1.0 - p[1], -p[2]), (2.0 - p[0], 1.0 - p[1], -p[2])]))
     # user-supplied parametric curves in absolute coordinates; the second one does not start at the current position
     ops["parametric"] = lambda p, d: ("parametric", {"origin": list(p), "offset": [0.0, 0.0, 0.0]}, (p[0] + 4.0, p[1], p[2] + 1.0))
     ops["parametric-detached"] = lambda p, d: ("parametric", {"origin": list(p), "offset": [3.0, -1.0, 0.5]}, (p[0] + 7.0, p[1] - 1.0, p[2] + 1.5))
